@@ -585,11 +585,15 @@ def _check_last_attempt_prefix(V, rr, u, specs):
     EnableDeviceType frame on the wire - also in the attempt that finally
     succeeded after a reconnection (same device generation)."""
     sends = rr.dev.sends
+    # the same frame may occur with different device types within one unit;
+    # the last transmission of a frame belongs to its last occurrence
+    last_by_frame = {}
     for spec in specs:
-        cmd = cmds.mk_cmd(spec)
+        c = cmds.mk_cmd(spec)
+        last_by_frame[(len(c.frame), c.frame.as_integer)] = c
+    for fv, cmd in last_by_frame.items():
         if not cmd.devicetype:
             continue
-        fv = (len(cmd.frame), cmd.frame.as_integer)
         idxs = [i for i, s_ in enumerate(sends) if s_["unit"] == u and (s_.get("bits"), s_.get("value")) == fv]
         if not idxs:
             continue
